@@ -127,7 +127,11 @@ class EG:
     def chooses(self, depth):
         d = self.d
         n = d(st.integers(2, 4))
-        form = d(st.sampled_from(["list", "pos", "dict", "kw"]))
+        form = d(st.sampled_from(["list", "pos", "dict", "kw", "dict-str"]))
+        if form == "dict-str":
+            names = ["short", "long", "x"][:n] if n <= 3 else ["short", "long", "x", "y"]
+            sel = ["ch", ["bin", "and", self.deferred(self.intexpr(depth + 1)), ["c", 1 if len(names) == 2 else 3]], ["list", [["c", nm] for nm in names]], "list"]
+            return ["ch", sel, ["dict", [[nm, self.intexpr(depth + 1)] for nm in names]], "dict"]
         if form in ("list", "pos"):
             key = ["bin", "and", self.deferred(self.intexpr(depth + 1)), ["c", d(st.sampled_from([1, 3, 7]))]]
             return ["ch", key, ["list", [self.intexpr(depth + 1) for _ in range(n)]], form]
